@@ -3,6 +3,9 @@
 import json, os
 HOOK_COMMITS = ["1d323e3"]
 CHECKS = {
+ "C12": dict(cat="fault_enumeration", tech="runtime monitoring: planted-fault enumeration with a printer-known line map, oracle over the real error trace (debug info), rendered excerpts and debug prefixes",
+   text="About 230 000 programs per quick run: runtime faults of 10 kinds planted behind random multi-line filler at call depth 0-4 through 18 call-site forms - the real trace mapped through the chunk's debug info must list the fault line and the call-site lines innermost first, and every excerpt of the rendered message must quote the source line it names; 11 kinds of bad token lines planted at statement boundaries - compile error with a span inside the text, starting on the planted line, excerpt quoting it; debug statements (single / multi-line, nested in functions) - prefix equals the first line of the expression.",
+   note="Line numbers come from the harness' own bookkeeping; consecutive frames that report the same line are merged (native adaptors add frames). Multi-line failing expressions are judged by line range.", ref="4 C12"),
  "C10": dict(cat="exploration", tech="runtime monitoring: relational (metamorphic) monitor over real parses and runs of layout variants of the same model program, canonical-AST equality, prefix classification against the real parser's indentation-error flag",
    text="Each generated program (four kgen profiles, about 30 000 per quick run) is printed canonically and in seeded layout variants flipping the documented freedoms (comments of three kinds, blank lines, trailing whitespace, CRLF, redundant parentheses, number and quote spelling, paren-free calls, inline vs block forms of if / arms / function bodies / maps, broken binary expressions, argument lists, list literals and call chains); the real runs must behave identically and the real parses must give the identical syntax tree (exactly for trivia-only variants, modulo the declared cosmetic flags otherwise). Trivia variants of every parseable corpus program must parse to the identical tree. Every header-line and dangling-operator prefix must be flagged as an indentation error by the real parser and complete-statement prefixes never.",
    note="No model in the verdict (real vs real), except that variants are born from the model AST by the printer; the printer stays inside the plainly documented layout forms (header expressions on one line, one broken construct per statement). AST canonicaliser works on the nodes' Debug rendering.", ref="4 C10, 3.4.2"),
